@@ -182,4 +182,21 @@ var plans = map[string]Plan{
 			{Name: "structural-grid", Pkg: "./checks/c08", Run: "^TestStructuralGrid$", Shards: [2]int{1, 1}},
 		},
 	},
+	"C11": {
+		Level: "exploration",
+		Rule: "cases are documents: (roundtrip, walk) AST models drawn from the full grammar (every header, definition, type, constant and annotation form, docstrings) printed by an independent printer with randomised layout (blanks incl. CR and newlines after any token, #, //, /* */ comments, optional separators, both quote styles with every escape, hex / signed ints, doubles with exponents) that records the true (line, column) of each node's first token; (totality) random bytes, ASCII / token soup and token-level mutations of printed documents; plus a fixed grid of minimal reproductions. " +
+			"Oracle: parsed tree == model in structure, names, literal values, docstrings and positions (ast.Pos, Info.Pos, Line/Column); ast.Walk == own traversal (each node once, true parents); Parse returns exactly one of program / non-empty error list with positions inside the document, never panics. " +
+			"Non-trivial: >=3 definitions and >=1 of {escape in a literal, comment between tokens, keyword followed by newline, docstring}; totality: non-empty input. Distinct: SHA-256 of the document text.",
+		Assumptions: []string{
+			"the generator emits only syntax that thrift.y / lex.rl accept (read from those files); 'true position' = first token of the node's production",
+			"input classes of open known findings are excluded by construction in the random units (C11_AVOID) and counted; the fixed grid re-observes them on every run",
+		},
+		Units: []Unit{
+			{Name: "roundtrip", Pkg: "./checks/c11", Run: "^TestRoundTrip$", Rapid: true, Shards: [2]int{6, 16}, Checks: [2]int{8000, 100000}, Env: []string{"C11_AVOID=K2,N1"}},
+			{Name: "walk", Pkg: "./checks/c11", Run: "^TestWalk$", Rapid: true, Shards: [2]int{4, 8}, Checks: [2]int{8000, 100000}, Env: []string{"C11_AVOID=K2,N1"}},
+			{Name: "totality", Pkg: "./checks/c11", Run: "^TestTotality$", Rapid: true, Shards: [2]int{6, 16}, Checks: [2]int{10000, 150000}, Env: []string{"C11_AVOID=K2,N1"}},
+			{Name: "repros", Pkg: "./checks/c11", Run: "^TestRepros$", Shards: [2]int{1, 1}},
+			{Name: "fuzz", Pkg: "./checks/c11", Fuzz: "FuzzParse", Shards: [2]int{0, 1}, FuzzTime: [2]time.Duration{0, 120 * time.Second}, Weight: 16, Env: []string{"C11_AVOID=K2,N1"}},
+		},
+	},
 }
